@@ -13,4 +13,5 @@ Extraction "model.ml"
   sys_malloc sys_calloc sys_strdup sys_free sys_realloc get_environ set_environ get_errno
   advance_to user_close user_cloexec take_runs w_add_note opres_code note_child_op curp get_proc
   parse_options parse_redirect parse_stop_actions expiry_pure parse_status path_is_relative
-  slot_of rs_set rs_del rs_add_woff write_src input_src init_rstate fd_set_cloexec.
+  slot_of rs_set rs_del rs_add_woff write_src input_src init_rstate fd_set_cloexec
+  abs_path has_writer has_reader get_pipe run_len norm_mask null_stop.
